@@ -45,6 +45,18 @@ def isTypeof : E → Bool
   | unary .typeof _ => true
   | _ => false
 
+/-- a valid simple assignment target of the fragment: a (parenthesised) variable other than the immutable globals, or a
+    member expression; assignments / updates / `delete` of anything else are outside the modelled fragment -/
+def assignable (x : E) : Bool :=
+  match x.inner with
+  | var n => n != "undefined" && n != "NaN"
+  | dot _ _ => true
+  | index _ _ => true
+  | _ => false
+
+/-- operators that evaluate their left operand as a reference -/
+def isAssignLike (op : BOp) : Bool := op.prec == opAssign
+
 /-- node rewriter applied on entry of `minifyExpr`: `optimizeCondExpr` / `optimizeUnaryExpr` -/
 def optNode (v20 : Bool) (e : E) (p : Prec) : Option E :=
   match e with
@@ -70,6 +82,7 @@ def minGen (rw : E → Prec → Option E) : Nat → E → Prec → Option E
     | lit l => some (lit l)
     | bin op x y =>
       if mergesStrings op x y then none else
+      if isAssignLike op && !assignable x then none else
       -- the binary expression proper, `x1` being the left operand
       let core : E → Option E := fun x1 =>
         if op == .inOp || op == .instOf then
@@ -104,7 +117,8 @@ def minGen (rw : E → Prec → Option E) : Nat → E → Prec → Option E
          | _, _ => none)
       | none => core x
     | unary op x =>
-      if op == .postinc || op == .postdec then
+      if (op == .postinc || op == .postdec || op == .preinc || op == .predec || op == .delete) && !assignable x then none
+      else if op == .postinc || op == .postdec then
         (minGen rw fuel x op.argPrec).map (unary op)
       else if op == .void && !hasSideEffects x then some undefIdx
       else
